@@ -284,6 +284,9 @@ class GeoIndex:
         ]).T
 
         if not return_distance:
+            if self.shuffler is not None and pairs.size:
+                # Translate the indices of the shuffled build points back
+                pairs[0, :] = self.shuffler[pairs[0, :]]
             return pairs
 
         if not pairs.size:
